@@ -105,7 +105,8 @@ CHECKS['C06'] = ('DESIGN.md#C06',
     'Generated-input and generated-schedule search: footprint preserved, '
     'every output label inside one input segment, parents untouched or '
     'partitioned into >=2 children of >=npixels, labels 1..N iff relabel, '
-    'contrast=1 copy, parent->children map equal to the pixels, input image '
+    'contrast=1 copy, parent->children map equal to the pixels (also for '
+    'inputs that are themselves deblended), input image '
     'and its caches bit-identical, and bit-identical output (data, maps, '
     'info) for every drawn nproc and completion order. Held on N cases; not '
     'a proof.',
@@ -160,7 +161,9 @@ CHECKS['C09'] = ('DESIGN.md#C09',
     '(bit-for-bit) what a fresh object built from deep copies of the same '
     'constructor arguments returns for the same request; no read or call '
     'may raise because of its prefix; public configuration of photometry '
-    'objects must be unchanged after every call. Held on N histories; not '
+    'objects must be unchanged after every call; model/residual images '
+    'made in any order of include_localbkg/psf_shape toggles equal those of '
+    'a fresh object. Held on N histories; not '
     'a proof.',
     'Reference = fresh object (decided by other properties). Known finding '
     'F7 (Ellipse geometry overrides persist) is excluded by signature. '
@@ -184,7 +187,7 @@ CHECKS['C11'] = ('DESIGN.md#C11',
     'ambiguous.')
 
 CHECKS['C10'] = ('DESIGN.md#C10',
-    'Entry-point registry (36 public calls incl. every lazy property of '
+    'Entry-point registry (37 public calls incl. every lazy property of '
     'their results) x argument representation x data condition on '
     'Hypothesis-generated scenes; oracle = deep before/after snapshot of '
     'every caller-owned object',
@@ -192,7 +195,8 @@ CHECKS['C10'] = ('DESIGN.md#C10',
     '{ndarray, view of a larger array, Fortran, negative strides, '
     'MaskedArray with a non-trivial mask, Quantity, float32, int32} x '
     '{clean, negatives, NaN/inf, NaN under mask, all} x {mask given, '
-    'mask=None}: data, error, mask, background, kernel, footprint, tables, '
+    'mask=None, mask = view of a larger array} x {error ndarray, '
+    'MaskedArray with its own mask, MaskedArray with NaN} x {coverage_mask}: data, error, mask, background, kernel, footprint, tables, '
     'PSF model, apertures, segmentation image and the array behind a view '
     'must be bit-identical (values, dtype, strides, mask, fill_value, unit) '
     'after the call, also when it raises. Held on N cases; not a proof.',
@@ -200,11 +204,12 @@ CHECKS['C10'] = ('DESIGN.md#C10',
     'helpers, I/O readers and the ePSF builder are not registered. '
     'Documented in-place mutators of their own object are exempt.')
 CHECKS['C15'] = ('DESIGN.md#C15',
-    'Entry-point registry evaluated on a float64 baseline and on 13 '
+    'Entry-point registry evaluated on a float64 baseline and on 14 '
     'representations of the same numbers (differential oracle) over '
     'Hypothesis-generated integer-valued scenes; mixed unit-ful/unit-less '
-    'inputs must be rejected',
-    'Generated-input search: no representation (int16/32/64, uint8, float32, '
+    'inputs must be rejected; companions in an equivalent unit (mJy vs Jy) '
+    'are rejected or physically equal',
+    'Generated-input search: no representation (int16/32/64, uint8/16, float32, '
     'big-endian, Fortran, negative-stride and sliced views, MaskedArray with '
     'empty mask, Quantity) may raise where float64 succeeds; all numeric '
     'outputs incl. every lazy property must equal the baseline (rel 1e-9; '
@@ -247,7 +252,8 @@ CHECKS['C18'] = ('DESIGN.md#C18',
     'the model kept whichever rows overlap, input model and table '
     'unchanged; PSFPhotometry model/residual images and '
     'make_psf_model_image agree with make_model_image on their parameter '
-    'tables. Held on N cases; not a proof.',
+    'tables, the residual being float64(data) - model also for float32 / '
+    'int32 / Quantity / NDData data. Held on N cases; not a proof.',
     'Trusted: astropy overlap_slices and discretize_model. rel 1e-12.')
 
 CHECKS['C13'] = ('DESIGN.md#C13',
@@ -302,7 +308,9 @@ CHECKS['C12'] = ('DESIGN.md#C12',
     'the fit window, flags 1/2/4/32 follow their documented meaning; fixed '
     'parameters keep their initial value; init_params untouched; '
     'IterativePSFPhotometry(maxiters=1) equals PSFPhotometry. Held on N '
-    'cases; not a proof.',
+    'cases; not a proof. free_shape: models with free width parameters '
+    'recover per-source widths and their model/residual images use the '
+    'fitted widths.',
     'Exact recovery is asserted only inside the optimiser\'s basin: '
     'converged (flag 8 clear), neighbours within reach in the same group, '
     'blend members >= 1 FWHM apart (true and initial), windows >= 15 px, '
@@ -321,7 +329,9 @@ CHECKS['C20'] = ('DESIGN.md#C20',
     'the initial geometry exactly on every isophote (also with maxit '
     'exhausted); build_ellipse_model reproduces the galaxy inside the '
     'calibrated fitted region; EllipseGeometry.to_polar agrees between '
-    'scalar and array forms and with atan2; the image is untouched. Held on '
+    'scalar and array forms and with atan2; the image is untouched; the '
+    'same integer-valued image stored as uint16/int32/big-endian gives the '
+    'same isophotes. Held on '
     'N cases (tens of fits in the quick tier, thousands in thorough).',
     'Tolerances are empirical with >=3x margin. Empty results are '
     'inconclusive. Known findings F30 (fix_pa rotated by 90 deg when eps '
